@@ -503,6 +503,19 @@ pub fn gen_c11(tier: &str, seed: u64, out: &str, mc: Option<&str>) -> Value {
         }
         t.cut();
     }
+    // longitude unwrapping on synthetic whole-degree rings: centres on a 30-degree grid (incl. the antimeridian), five
+    // points within 45 degrees of it, each input carrying an arbitrary multiple of 360
+    let mut n_unwrap = 0u64;
+    for clon in (-180..180).step_by(30) { for clat in [-60i64, -30, 0, 45, 75] { for v in 0..(if tier == "thorough" { 12 } else { 3 }) {
+        let pts: Vec<(i64, i64)> = (0..5).map(|k| (clon + [-45, -15, 0, 30, 45][(k + v as usize) % 5] as i64 + 360 * rng.range(-1, 1), clat + [10i64, -10, 5, -5, 0][k])).collect();
+        let contour: Vec<LonLat> = pts.iter().map(|&(l, a)| LonLat::new(l as f64, a as f64)).collect();
+        let outp = a5::core::coordinate_transforms::normalize_longitudes(contour);
+        let outs: Vec<i64> = outp.iter().map(|p| p.longitude().round() as i64).collect();
+        let exact = outp.iter().all(|p| p.longitude() == p.longitude().round());
+        t.emit(json!({"op": "unwrap", "lons": pts.iter().map(|p| p.0).collect::<Vec<_>>(), "lats": pts.iter().map(|p| p.1).collect::<Vec<_>>(),
+                      "outs": if exact { outs } else { vec![] }}));
+        n_unwrap += 1;
+    } } t.cut(); }
     // every cell of res 0..2 (3 in thorough) x all n x closed/open
     for r in 0..=(if tier == "thorough" { 3 } else { 2 }) {
         for id in all_cells(r) {
@@ -514,7 +527,7 @@ pub fn gen_c11(tier: &str, seed: u64, out: &str, mc: Option<&str>) -> Value {
         }
     }
     t.finish();
-    json!({"files": t.files, "events": t.events, "boundary_calls": n, "scenarios": plan.len(), "samples": [boundary_event(random_cell(&mut rng, 6), Some(3), true)]})
+    json!({"files": t.files, "events": t.events, "boundary_calls": n, "scenarios": plan.len(), "unwrap_rings": n_unwrap, "samples": [boundary_event(random_cell(&mut rng, 6), Some(3), true)]})
 }
 
 // ---------------------------------------------------------------- C01 / C02 drivers
